@@ -256,6 +256,16 @@ def hash_obligations():
     o.append(Ob('sha256_compress', P, enforce='sha256hash__getHash_1', unwind=66, timeout=900, note=pb, **HASH))
     o.append(Ob('sha1_compress', P, enforce='sha1hash__getHash_1', unwind=82, timeout=900, note=pb, **HASH))
     o.append(Ob('md5_compress', P, enforce='md5hash__getHash_1', unwind=66, timeout=900, note=pb, solver='minisat', **HASH))
+    al = dict(contracts=['hash.h'], defines=['WV_INPUT_ALIAS'])
+    an = ' (variant: the block pointer is the hasher\'s own hashblock member, as passed by getFileHash)'
+    o.append(Ob('sha256_compress_alias', P, enforce='sha256hash__getHash_1', unwind=66, timeout=900, note=pb + an, **al))
+    o.append(Ob('sha1_compress_alias', P, enforce='sha1hash__getHash_1', unwind=82, timeout=900, note=pb + an, **al))
+    o.append(Ob('md5_compress_alias', P, enforce='md5hash__getHash_1', unwind=66, timeout=900, note=pb + an, solver='minisat', **al))
+    for c in ('sha256hash', 'sha1hash', 'md5hash'):
+        o.append(Ob(c + '_final_alias', P, enforce=c + '__getHash_2', replace=[c + '__getHash_1'], unwind=66, timeout=600, note='final-block routine' + an, **al))
+    for m in ('getHash_1', 'getHash_2'):
+        o.append(Ob('hashmaster_dispatch_%s_alias' % m, P, enforce='Hashmaster__' + m,
+                    replace=['%s__%s' % (c, m) for c in ('sha256hash', 'sha1hash', 'md5hash')], note='R5 dispatcher' + an, **al))
     for c in ('sha256hash', 'sha1hash', 'md5hash'):
         o.append(Ob(c + '_final', P, enforce=c + '__getHash_2', replace=[c + '__getHash_1'], unwind=66, timeout=600, **HASH,
                     note='padding rule for every residue r < 64 and the 64-bit length field, observed at an arbitrary byte of either final block'))
@@ -277,7 +287,7 @@ def hash_obligations():
         o.append(Ob('filebuffer64_read_hb%d' % hb, P, enforce='filebuffer64__read_buffer64', replace=['wv_fread'], defines=d, **HASH,
                     note='unit sequence 64,...,64,short across refills; proof-build refill size HBUF_SZ=%d units' % hb))
     o.append(Ob('buffer64_dispatch_read', P, enforce='buffer64__read_buffer64', replace=['filebuffer64__read_buffer64'], defines=['filebuffer64__HBUF_SZ=2'], **HASH))
-    o.append(Ob('hashmaster_getFileHash', P, enforce='Hashmaster__getFileHash', timeout=600, defines=['filebuffer64__HBUF_SZ=2'], tier='thorough',
+    o.append(Ob('hashmaster_getFileHash', P, enforce='Hashmaster__getFileHash', timeout=600, defines=['filebuffer64__HBUF_SZ=2', 'WV_INPUT_ALIAS'], split=12,
                 replace=['Hashmaster__reset', 'Hashmaster__getHash_1', 'Hashmaster__getHash_2', 'Hashmaster__getres', 'buffer64__read_buffer64'], **HASH,
                 note='unbounded in the stream length (symbolic 64-bit file length, loop contract with a decreasing variant)'))
     return o
